@@ -319,7 +319,7 @@ def dist(
       - J. Richter-Gebert: Perspectives on Projective Geometry, Section 18.8
 
     """
-    if p == q:
+    if p.tensor_shape == q.tensor_shape and p == q:
         return np.zeros(p.shape[: p.free_indices])
 
     if isinstance(p, PointTensor) and isinstance(q, PointTensor):
@@ -328,10 +328,15 @@ def dist(
         return dist(p.project(q), q)
     if isinstance(p, PointTensor) and isinstance(q, SubspaceTensor):
         return dist(q.project(p), p)
-    if isinstance(p, SubspaceTensor) and isinstance(q, PlaneTensor):
+    if isinstance(p, SubspaceTensor) and not isinstance(p, PlaneTensor) and isinstance(q, PlaneTensor):
         return dist(q, p)
     if isinstance(p, PlaneTensor) and isinstance(q, LineTensor):
         return dist(p, q.base_point)
+    if isinstance(p, PlaneTensor) and isinstance(q, PlaneTensor):
+        # a finite point of q: the foot of the perpendicular from the origin
+        n = q.array[..., :-1]
+        x = np.append(-q.array[..., -1:] * n, np.sum(n * n, axis=-1, keepdims=True), axis=-1)
+        return dist(p, PointCollection.from_array(x))
     if isinstance(p, PlaneTensor) and isinstance(q, SubspaceTensor):
         return dist(p, PointCollection.from_array(q.basis_matrix[0, :]))
 
